@@ -16,7 +16,8 @@ from `now()` is `now + d`), and fibers / wait queues are named by the client (`F
 fiber's identity or address, only positions in its lists.
 
 Integers are natural numbers (no wrap-around of `_time`, `sRandCount`, `_count`: the stated no-overflow assumption).
-Places where the C++ code has undefined behaviour are explicit (`Out.ub`), see notes/C17.md.
+`Out.ub` marks the one remaining undefined behaviour: a blocking call made outside a fiber (client error).  The two
+scheduler defects that used to produce it (D8, D12) were fixed in /repo 33a96a1; see notes/C17.md.
 -/
 import YaclibModel.Extracted.FiberSched
 
@@ -81,7 +82,7 @@ inductive Out (F : Type) where
   | flag (b : Bool)                             -- inject? / spurious failure? / immediate timeout
   | resumed (f : F) (timedOut : Option Bool)    -- the run loop resumed `f` (`on_resume`); result of its timed wait
   | idle                                        -- the run loop ended: nothing runnable, nothing sleeping
-  | ub                                          -- the C++ code has undefined behaviour at this point
+  | ub                                          -- a blocking call outside a fiber (null `sCurrent` dereferenced)
   deriving Repr, DecidableEq
 
 section
@@ -116,12 +117,13 @@ def wakeUp (time : Nat) : List (Nat × List F) → List F × List (Nat × List F
     if Extracted.FiberSched.Scheduler.WakeUpNeeded.stop time k then ([], (k, b) :: rest)
     else (b ++ (wakeUp time rest).1, (wakeUp time rest).2)
 
-/-- the tail of `SleepPreemptive`: `it = _sleep_list.find(ns); if (it->second.Empty()) _sleep_list.erase(ns)`.
-    `none`: `find` returned `end()` and is dereferenced (undefined behaviour) -/
-def cleanupBucket (ns : Nat) (sl : List (Nat × List F)) : Option (List (Nat × List F)) :=
+/-- the tail of `SleepPreemptive` (since 33a96a1): `if (auto it = _sleep_list.find(ns); it != end() && it->second.Empty())
+    _sleep_list.erase(it);` — whatever the time is; nothing happens if the bucket is gone or still populated.
+    (Before the fix the lookup was made only if `_time <= ns` and its result was dereferenced unchecked: D8.) -/
+def cleanupBucket (ns : Nat) (sl : List (Nat × List F)) : List (Nat × List F) :=
   match sl.find? (fun kb => kb.1 == ns) with
-  | none => none
-  | some kb => some (if kb.2.isEmpty then sl.filter (fun kb => !(kb.1 == ns)) else sl)
+  | none => sl
+  | some kb => if kb.2.isEmpty then sl.filter (fun kb => !(kb.1 == ns)) else sl
 
 /-- `Scheduler::Schedule(f)` while the loop is running: `SetState(Waiting); _queue.PushBack(f)` -/
 def schedule (s : St E F Q) (f : F) : St E F Q :=
@@ -142,34 +144,45 @@ def advance (s : St E F Q) : Nat :=
   else s.time
 
 /-- `next->Resume()` seen from the resumed fiber `f` (`s1` = state right after the switch): a fiber returning from a
-    timed wait finishes `SleepPreemptive` (`if (_time <= ns) { erase the bucket if it is empty }`) and
-    `FiberQueue::Wait` (`queue_node->Erase()`: still linked = nobody notified it = timeout) -/
+    timed wait finishes `SleepPreemptive` (drop its bucket if a notify left it empty) and `FiberQueue::Wait`
+    (`queue_node->Erase()`: still linked = nobody notified it = timeout) -/
 def resumeIn (s1 : St E F Q) (f : F) : St E F Q × List (Out F) :=
   match s1.timed f with
   | none => (s1, [.resumed f none])
   | some (ns, q) =>
-    let s2 : St E F Q := { s1 with waitq := upd s1.waitq q ((s1.waitq q).erase f), timed := upd s1.timed f none }
-    let res := (s1.waitq q).contains f
-    if Extracted.FiberSched.Scheduler.SleepPreemptive.cleanup s1.time ns then
-      match cleanupBucket ns s1.sleep with
-      | none => (s2, [.resumed f (some res), .ub])
-      | some sl => ({ s2 with sleep := sl }, [.resumed f (some res)])
-    else (s2, [.resumed f (some res)])
+    ({ s1 with waitq := upd s1.waitq q ((s1.waitq q).erase f), timed := upd s1.timed f none, sleep := cleanupBucket ns s1.sleep },
+     [.resumed f (some ((s1.waitq q).contains f))])
 
-/-- one iteration of `Scheduler::RunLoop` up to and including `next->Resume()` -/
-def dispatch (en : Engine E) (cfg : Cfg) (s : St E F Q) : St E F Q × List (Out F) :=
+/-- one iteration of `Scheduler::RunLoop`; `again` is the rest of the loop after `if (_queue.Empty()) continue;` -/
+def dispatchBody (en : Engine E) (cfg : Cfg) (again : St E F Q → St E F Q × List (Out F)) (s : St E F Q) :
+    St E F Q × List (Out F) :=
   if s.queue.isEmpty && s.sleep.isEmpty then ({ s with cur := none }, [.idle])
   else
     let w := wakeUp (advance s) s.sleep
-    let p := poll en cfg s.rc s.eng (s.queue ++ w.1)
-    match p.2.2 with
-    | none =>   -- GetNext on an empty queue (only empty buckets were left): `nullptr->Erase()`
-      ({ s with time := advance s, sleep := w.2, queue := s.queue ++ w.1, rc := p.1, eng := p.2.1, cur := none }, [.ub])
-    | some (f, queue) =>
-      resumeIn { s with time := Extracted.FiberSched.Scheduler.TickTime cfg.tick (advance s), sleep := w.2, queue := queue, rc := p.1, eng := p.2.1, cur := some f, waiting := upd s.waiting f false } f
+    if (s.queue ++ w.1).isEmpty then
+      -- `WakeUpNeeded` produced nothing runnable (only emptied buckets were due): `continue` — no tick, no draw
+      again { s with time := advance s, sleep := w.2 }
+    else
+      let p := poll en cfg s.rc s.eng (s.queue ++ w.1)
+      match p.2.2 with
+      | none =>   -- a pick on a non-empty list is never null (`dispatch_no_ub`)
+        ({ s with time := advance s, sleep := w.2, queue := s.queue ++ w.1, rc := p.1, eng := p.2.1, cur := none }, [.ub])
+      | some (f, queue) =>
+        resumeIn { s with time := Extracted.FiberSched.Scheduler.TickTime cfg.tick (advance s), sleep := w.2, queue := queue, rc := p.1, eng := p.2.1, cur := some f, waiting := upd s.waiting f false } f
+
+/-- `RunLoop` until a fiber is resumed or the loop ends.  Every `continue` erases at least the first bucket of the
+    sleep map (`AdvanceTime` made it due), so `length of the sleep map` iterations suffice (`dispatch_no_ub`: the
+    fuel never runs out) -/
+def dispatchLoop (en : Engine E) (cfg : Cfg) : Nat → St E F Q → St E F Q × List (Out F)
+  | 0, s => dispatchBody en cfg (fun s' => ({ s' with cur := none }, [.ub])) s
+  | fuel + 1, s => dispatchBody en cfg (dispatchLoop en cfg fuel) s
+
+def dispatch (en : Engine E) (cfg : Cfg) (s : St E F Q) : St E F Q × List (Out F) :=
+  dispatchLoop en cfg s.sleep.length s
 
 /-- the current fiber gives up the processor after `prep` linked it somewhere; outside a fiber: undefined behaviour
-    (`sCurrent == nullptr` is dereferenced), except for `yield`, which checks -/
+    (`sCurrent == nullptr` is dereferenced: a client error, the only producer of `Out.ub`, see `ub_only_outside_fiber`),
+    except for `yield`, which checks -/
 def block (en : Engine E) (cfg : Cfg) (s : St E F Q) (prep : F → St E F Q) : St E F Q × List (Out F) :=
   match s.cur with
   | none => (s, [.ub])
@@ -210,11 +223,7 @@ def step (en : Engine E) (cfg : Cfg) (s : St E F Q) : Req F Q → St E F Q × Li
       let s1 : St E F Q := { s with rc := r.1, eng := r.2.1 }
       if Extracted.FiberSched.Scheduler.Sleep.skip s1.time ns then
         -- Sleep returned at once; the fiber was pushed to the wait queue and erases itself again: "timeout"
-        if Extracted.FiberSched.Scheduler.SleepPreemptive.cleanup s1.time ns then
-          match cleanupBucket ns s1.sleep with
-          | none => (s1, [.flag true, .ub])
-          | some sl => ({ s1 with sleep := sl }, [.flag true])
-        else (s1, [.flag true])
+        ({ s1 with sleep := cleanupBucket ns s1.sleep }, [.flag true])
       else
         dispatch en cfg { s1 with waitq := upd s1.waitq q (s1.waitq q ++ [f]), timed := upd s1.timed f (some (ns, q)), sleep := sleepInsert ns f s1.sleep }
   | .notifyOne q =>
@@ -244,16 +253,27 @@ def run (en : Engine E) (cfg : Cfg) (client : Client F Q) : Nat → St E F Q →
     | none => (s, obs)
     | some r => run en cfg client n (step en cfg s r).1 (obs ++ (step en cfg s r).2)
 
-/-- a new process / a fresh `fault::Scheduler` after `SetSeed(seed)`; `rc0` = `sRandCount` at that moment (0 in a new
-    process, anything in a re-run: `SetSeed` does not reset it), `c0` = injector state -/
-def init (en : Engine E) (seed rc0 c0 : Nat) : St E F Q :=
-  { rc := rc0, eng := (Extracted.FiberSched.SetSeed en.seed seed).2, count := c0,
-    pause := Extracted.FiberSched.default_Injector_pause, time := Extracted.FiberSched.default_Scheduler_time,
-    queue := [], sleep := [], waitq := fun _ => [], waiting := fun _ => false, timed := fun _ => none, cur := none }
+/-- `SetSeed(seed); SetInjectorState(c)` executed in state `s`: since /repo f49f13c `SetSeed` also resets the draw counter, so
+    the counter and the engine afterwards do not depend on what they were — on how many numbers the process drew before -/
+def reseed (en : Engine E) (s : St E F Q) (seed c : Nat) : St E F Q :=
+  { s with rc := (Extracted.FiberSched.SetSeed en.seed seed).2.1, eng := (Extracted.FiberSched.SetSeed en.seed seed).2.2,
+           count := Extracted.FiberSched.Injector.SetState s.count c }
 
-inductive Reachable (en : Engine E) (cfg : Cfg) (seed rc0 c0 : Nat) : St E F Q → Prop where
-  | init : Reachable en cfg seed rc0 c0 (init en seed rc0 c0)
-  | step {s : St E F Q} (r : Req F Q) : Reachable en cfg seed rc0 c0 s → Reachable en cfg seed rc0 c0 (step en cfg s r).1
+/-- a fresh `fault::Scheduler` in a process whose earlier activity left the draw counter `rc`, the engine `e` and the
+    injector counter `cnt` behind -/
+def leftover (rc : Nat) (e : E) (cnt : Nat) : St E F Q :=
+  { rc := rc, eng := e, count := cnt, pause := Extracted.FiberSched.default_Injector_pause,
+    time := Extracted.FiberSched.default_Scheduler_time, queue := [], sleep := [], waitq := fun _ => [],
+    waiting := fun _ => false, timed := fun _ => none, cur := none }
+
+/-- the start of a run: a fresh scheduler after `SetSeed(seed); SetInjectorState(c0)` (= `reseed` of any `leftover`:
+    `init_after_any_prefix`) -/
+def init (en : Engine E) (seed c0 : Nat) : St E F Q :=
+  leftover (Extracted.FiberSched.SetSeed en.seed seed).2.1 (Extracted.FiberSched.SetSeed en.seed seed).2.2 c0
+
+inductive Reachable (en : Engine E) (cfg : Cfg) (seed c0 : Nat) : St E F Q → Prop where
+  | init : Reachable en cfg seed c0 (init en seed c0)
+  | step {s : St E F Q} (r : Req F Q) : Reachable en cfg seed c0 s → Reachable en cfg seed c0 (step en cfg s r).1
 
 /-- only the running fiber exists: nothing runnable, sleeping, parked or in a timed wait -/
 structure Lone (s : St E F Q) (f : F) : Prop where
@@ -266,8 +286,8 @@ structure Lone (s : St E F Q) (f : F) : Prop where
 
 /-- `SetSeed(seed); ForwardToFaultRandomCount(n); SetInjectorState(c)` executed in state `s` -/
 def restore (en : Engine E) (s : St E F Q) (seed n c : Nat) : St E F Q :=
-  let e := (Extracted.FiberSched.SetSeed en.seed seed).2
-  let g := Extracted.FiberSched.ForwardToRandCount en.draw s.rc e n
+  let r := Extracted.FiberSched.SetSeed en.seed seed
+  let g := Extracted.FiberSched.ForwardToRandCount en.draw r.2.1 r.2.2 n
   { s with rc := g.1, eng := g.2, count := Extracted.FiberSched.Injector.SetState s.count c }
 
 /-- translate virtual time by `d` (and the draw counter, which is only ever incremented and reported, by `k`) -/
